@@ -95,8 +95,13 @@ def main():
             else:
                 print('%-22s on %s  silent' % (name, rev))
     print('%d of %d refactorings raise an alarm' % (bad, len(patches)))
-    if len(sys.argv) == 1:
-        json.dump(table, open(os.path.join(VERIF, 'neutral', 'matrix.json'), 'w'), indent=1, sort_keys=True)
+    mj = os.path.join(VERIF, 'neutral', 'matrix.json')
+    if len(sys.argv) > 1 and os.path.exists(mj):
+        # a partial run refreshes the rows of the patches it ran
+        full = json.load(open(mj))
+        full.update(table)
+        table = full
+    json.dump(table, open(mj, 'w'), indent=1, sort_keys=True)
     return 1 if bad else 0
 
 
